@@ -2,7 +2,7 @@
 import json, os, subprocess, hashlib, re
 
 VERIF = os.path.dirname(os.path.dirname(os.path.abspath(__file__)))
-VX = os.path.join(VERIF, 'tools', 'vx', 'target', 'release', 'vx')
+VX = os.environ.get('VERIF_VX') or os.path.join(VERIF, 'tools', 'vx', 'target', 'release', 'vx')
 
 HEADER = """// GENERATED on every run by /verif/check from /repo's current sources -- do not edit.
 // Function bodies are copied verbatim by byte span from /repo (tools/vx) with the rewrite
